@@ -360,6 +360,24 @@ Theorem C13_merge_one_reader_at_a_time :
 Proof. exact merge_one_reader_at_a_time. Qed.
 Print Assumptions C13_merge_one_reader_at_a_time.
 
+(* ---- the request context (round 7) --------------------------------- *)
+
+(* Whatever the request context does while /chart/ runs (live, cancelled or
+   past its deadline before the request or after any number of objects have
+   been opened), the request is served as with a live context; so a chart
+   object answered under a done context still has NumReports = the number of
+   merged reports of the range and meets the specification for all of them. *)
+Theorem C13_chart_independent_of_request_context :
+  forall it lts ltg cfg read start end_ c,
+  handle_chart_ctx it lts ltg c cfg read start end_ = handle_chart it lts ltg cfg read start end_ /\
+  forall name cd, iter_ok it -> cfg_ok lts ltg cfg ->
+    handle_chart_ctx it lts ltg c cfg read start end_ = ChartOk name cd ->
+    cd_num cd = length (days_reports read start (Z.to_nat (end_ - start + 1))) /\
+    chartdata_spec lts ltg cfg (fmt_date start) (fmt_date end_)
+                   (days_reports read start (Z.to_nat (end_ - start + 1))) cd.
+Proof. exact chart_independent_of_request_context. Qed.
+Print Assumptions C13_chart_independent_of_request_context.
+
 (* ---- non-vacuity --------------------------------------------------- *)
 
 (* the identity iteration orders with insertion sort satisfy iter_ok *)
